@@ -90,4 +90,4 @@ def run(check):
     check.extra['programs_compared'] = len(jobs)
     usimrun.judge(check, OBS, runs)
     # FIFO turn order at kernel level: the Loop's scheduling decisions against ObsK
-    usimrun.judge_kernel(check, usimrun.kernel_traces(check, 300 if check.tier == 'quick' else 5000), 'C02.')
+    usimrun.judge_kernel(check, usimrun.kernel_traces(check, 600 if check.tier == 'quick' else 6000), 'C02.')
